@@ -371,8 +371,20 @@ func (api *API) decodeArray(ctx context.Context, b []byte, value reflect.Value, 
 		return deseri.Done()
 	}
 
-	// if it is an array of objects, handle the array like a slice
-	return api.decodeSlice(ctx, b, sliceValue, sliceValueType, ts, opts)
+	// if it is an array of objects, handle the array like a slice:
+	// decode into an addressable slice, then copy the elements back into the array.
+	decodedSlice := reflect.New(sliceValueType).Elem()
+	bytesRead, err := api.decodeSlice(ctx, b, decodedSlice, sliceValueType, ts, opts)
+	if err != nil {
+		return bytesRead, err
+	}
+	if decodedSlice.Len() != value.Len() {
+		return 0, ierrors.Wrapf(serializer.ErrInvalidBytes,
+			"array of length %d can't be deserialized from %d elements", value.Len(), decodedSlice.Len())
+	}
+	fillArrayFromSlice(value, decodedSlice)
+
+	return bytesRead, nil
 }
 
 func (api *API) decodeSlice(ctx context.Context, b []byte, value reflect.Value,
